@@ -66,6 +66,7 @@ func execute(t *testing.T, eng *Engine, seed uint64, wl, sch *Tape) (res RunResu
 	}()
 	body := func(t *testing.T) {
 		s := NewSim(t, eng.Prop, seed, wl, sch)
+		s.noBubble = eng.NoBubble
 		if eng.MaxSteps > 0 {
 			s.MaxSteps = eng.MaxSteps
 		}
